@@ -155,10 +155,15 @@ def run_job(job, rec):
                 if bounded:
                     for i in range(d):
                         r = rng.random()
-                        if r < 0.5:
+                        if r < 0.4:
                             ch.set_boundaries(i, (lo[i], hi[i]))
-                        elif r < 0.75 and start[i] > 0:
+                        elif r < 0.6 and start[i] > 0:
                             ch.set_non_negative(i, True)
+                        elif r < 0.85 and start[i] > 0:
+                            # both limits on one parameter (boundaries straddling zero + non-negativity)
+                            ch.set_boundaries(i, (min(lo[i], -0.5), hi[i]))
+                            ch.set_non_negative(i, True)
+                            rec.count("cases:both_limits")
                     cfg["limits"] = [(bool(p.bounded), bool(p.non_negative)) for p in ch.params]
             elif kind == "pca":
                 cls = PcaChain
